@@ -108,7 +108,7 @@ class ModelBackend:
 
     def rename(self, s, d):
         e = self.files[s]
-        self.files[d] = Ent(True, e.get())
+        self.files[d] = Ent(True, e.data)      # the (possibly lazy) content moves with the entry
         self.files[s] = Ent(False, b"")
 
     def listdir(self, p):
